@@ -142,6 +142,14 @@ def y_scripts(seed, count, reentrant):
         xid = "y%s%d" % ("r" if reentrant else "p", n)
         steps = []
         nsub = 0    # subscribes issued so far (an upper bound of the ids handed out by the test itself)
+        if n % 4 == 3:
+            # a crowd: 15-40 observers subscribed at the same time (their handles are given up: a default handle is moved over each),
+            # delivered to in subscription order, each exactly once -- whatever a notify keeps per observer has to scale
+            for _ in range(rnd.choice([15, 16, 17, 18, 20, 33, 40])):
+                steps.append(("Subscribe", "h1", "", 0, []))
+                steps.append(("Drop", "h1", "", 0, []))
+                nsub += 1
+            steps.append(("Notify", "", "", rnd.randrange(1, 4), []))
         if n % 4 == 2:
             # a long-lived Subject: dozens of subscriptions have come and gone (ids past 32 and 64) while one early observer stays
             steps.append(("Subscribe", "h4", "", 0, []))
